@@ -25,7 +25,7 @@ impl Property for C03 {
         "C03"
     }
     fn rule(&self) -> &'static str {
-        "profile `attribution`: 2-8 output-capable 64-bit signals (outputs and bidirectionals interleaved with inputs), 0-2 virtual signals, loop-free rows (some with C), `let` statements binding variables named like output-capable signals in a quarter of the positions, driver layout = random subset in random order, per-call values from a wide palette (arbitrary 64-bit, boundary, small, Z, X), expected entries drawn to agree with what the script returns in that call in about half of the entries and to disagree / be X / be Z otherwise. In a quarter of the cases the driver fails on one call (the caller goes on; an item that is a checked row by its position must report its outputs). A row that a virtual signal turns into an error item (it read Z/X) does not end the run: the caller goes on and the rows after it are checked the same way. Oracle: for every checked row, entry.output == what the recording driver returned for that signal in that row's call (X if not in the layout); check() by an independent 3x3 table; is_checked() iff expected != X; failing_outputs() == exactly the entries that do not pass. Non-trivial: layout is a proper subset or non-identity permutation, >= 2 supplied outputs differ in some call, both verdicts occur; distinct by source + signals + driver."
+        "profile `attribution`: 2-8 output-capable 64-bit signals (outputs and bidirectionals interleaved with inputs), 0-2 virtual signals, loop-free rows (some with C), `let` statements binding variables named like output-capable signals in a quarter of the positions, driver layout = random subset in random order, per-call values from a wide palette (arbitrary 64-bit, boundary, small, Z, X), expected entries drawn to agree with what the script returns in that call in about half of the entries and to disagree / be X / be Z otherwise. In a third of the cases another iterator over the same TestCase has run before against a driver with a different layout of the same length. In a quarter of the cases the driver fails on one call (the caller goes on; an item that is a checked row by its position must report its outputs). A row that a virtual signal turns into an error item (it read Z/X) does not end the run: the caller goes on and the rows after it are checked the same way. Oracle: for every checked row, entry.output == what the recording driver returned for that signal in that row's call (X if not in the layout); check() by an independent 3x3 table; is_checked() iff expected != X; failing_outputs() == exactly the entries that do not pass. Non-trivial: layout is a proper subset or non-identity permutation, >= 2 supplied outputs differ in some call, both verdicts occur; distinct by source + signals + driver."
     }
     fn cases(&self, tier: Tier) -> u64 {
         match tier {
@@ -37,7 +37,7 @@ impl Property for C03 {
         [300, 8, 60]
     }
     fn required_classes(&self) -> Vec<&'static str> {
-        vec!["layout-subset", "layout-permuted", "output-Z", "output-X", "expected-Z", "pass", "fail", "Z-matches-Z", "X-output-vs-number", "virtual", "bidirectional", "supplied-output-not-in-header", "variable-named-like-output", "checked-row-after-error-item", "row-after-driver-failure"]
+        vec!["layout-subset", "layout-permuted", "output-Z", "output-X", "expected-Z", "pass", "fail", "Z-matches-Z", "X-output-vs-number", "virtual", "bidirectional", "supplied-output-not-in-header", "variable-named-like-output", "checked-row-after-error-item", "row-after-driver-failure", "another-iterator-with-another-layout-ran-before"]
     }
     fn run(&self, s: &Streams) -> CaseOut {
         let mut out = CaseOut::new();
@@ -179,6 +179,30 @@ impl Property for C03 {
         let Some(tc) = load_wellformed(&mut out, "c03", &text, &sigs) else {
             return out;
         };
+        // In a third of the cases another iterator over the same test has run before, against a
+        // driver that lists its outputs differently (same number of entries: rotated, or another
+        // subset of that size). Nothing of it may carry over.
+        if dch.chance(1, 3) && !spec.layout.is_empty() {
+            let mut pre = spec.clone();
+            let n = pre.layout.len();
+            if n >= 2 && dch.chance(1, 2) {
+                pre.layout.rotate_left(1 + dch.upto(n - 1));
+            } else {
+                let others: Vec<usize> = all_outs.iter().copied().filter(|i| !pre.layout.contains(i)).collect();
+                if !others.is_empty() {
+                    let at = dch.upto(n);
+                    pre.layout[at] = others[dch.upto(others.len())];
+                } else if n >= 2 {
+                    pre.layout.reverse();
+                }
+            }
+            pre.fail_at = None;
+            if pre.layout != spec.layout {
+                out.class("another-iterator-with-another-layout-ran-before");
+                out.put("earlier-driver", pre.describe(&sigs));
+                let _ = run_real(&tc, &sigs, &pre, &RunOpts { max_next: 1 + dch.upto(4), ..Default::default() });
+            }
+        }
         let real = run_real(&tc, &sigs, &spec, &RunOpts { max_next: 200, continue_after_error: true, continue_after_driver_error: true, ..Default::default() });
         if let Some(c) = &real.ctor {
             match c {
